@@ -19,25 +19,19 @@ Open Scope Q_scope.
 (* ---------------------------------------------------------------------------------------- *)
 (* A. centre distance (squared)                                                              *)
 (* ---------------------------------------------------------------------------------------- *)
-Theorem C06_center_symmetric : forall e g : box, center_sq e g == center_sq g e.
-Proof. exact center_sq_sym. Qed.
-Print Assumptions C06_center_symmetric.
-
-Theorem C06_center_nonneg : forall e g : box, 0 <= center_sq e g.
-Proof. exact center_sq_nonneg. Qed.
-Print Assumptions C06_center_nonneg.
-
-Theorem C06_center_zero_iff_same_centre : forall e g : box,
-  center_sq e g == 0 <-> (bx e == bx g /\ by_ e == by_ g /\ bz e == bz g).
-Proof. exact center_sq_zero_iff. Qed.
-Print Assumptions C06_center_zero_iff_same_centre.
-
-(* it IS the squared Euclidean distance of the centres (definitionally: no hidden formula) *)
-Theorem C06_center_is_euclidean : forall e g : box,
+(* it IS the squared Euclidean distance of the centres (definitionally: no hidden formula),
+   symmetric, non-negative, and 0 exactly when the centres coincide *)
+Theorem C06_center_distance_laws : forall e g : box,
   center_sq e g = (bx e - bx g) * (bx e - bx g) + (by_ e - by_ g) * (by_ e - by_ g)
-                  + (bz e - bz g) * (bz e - bz g).
-Proof. reflexivity. Qed.
-Print Assumptions C06_center_is_euclidean.
+                  + (bz e - bz g) * (bz e - bz g) /\
+  center_sq e g == center_sq g e /\
+  0 <= center_sq e g /\
+  (center_sq e g == 0 <-> (bx e == bx g /\ by_ e == by_ g /\ bz e == bz g)).
+Proof.
+  intros e g. split; [reflexivity|]. split; [apply center_sq_sym|].
+  split; [apply center_sq_nonneg|apply center_sq_zero_iff].
+Qed.
+Print Assumptions C06_center_distance_laws.
 
 (* any common rigid motion: yaw rotation (mc, ms) about the ego + translation (3D) *)
 Theorem C06_center_rigid_invariant : forall (m : motion) (e g : box),
@@ -45,23 +39,20 @@ Theorem C06_center_rigid_invariant : forall (m : motion) (e g : box),
 Proof. exact center_sq_rigid. Qed.
 Print Assumptions C06_center_rigid_invariant.
 
-(* 2D objects: integer ROI centres offset + size // 2 *)
+(* 2D objects: integer ROI centres offset + size // 2 = floor(offset + size / 2) in both
+   coordinates; their squared distance is symmetric, >= 0, 0 iff same centre, translation invariant *)
 Theorem C06_roi_center_distance : forall a b : roi,
+  (2 * fst (roi_center a) <= 2 * rx a + rw a < 2 * fst (roi_center a) + 2)%Z /\
+  (2 * snd (roi_center a) <= 2 * ry a + rh a < 2 * snd (roi_center a) + 2)%Z /\
   roi_center_sq a b = roi_center_sq b a /\ (0 <= roi_center_sq a b)%Z /\
   (roi_center_sq a b = 0%Z <-> roi_center a = roi_center b) /\
   (forall tx ty, roi_center_sq (shift_roi tx ty a) (shift_roi tx ty b) = roi_center_sq a b).
 Proof.
-  intros a b. split; [apply roi_center_sq_sym|]. split; [apply roi_center_sq_nonneg|].
+  intros a b. split; [apply (roi_center_floor a)|]. split; [apply (roi_center_floor a)|].
+  split; [apply roi_center_sq_sym|]. split; [apply roi_center_sq_nonneg|].
   split; [apply roi_center_sq_zero_iff|]. intros. apply roi_center_sq_shift.
 Qed.
 Print Assumptions C06_roi_center_distance.
-
-(* the integer centre is floor(offset + size / 2) in both coordinates *)
-Theorem C06_roi_center_is_floor_of_middle : forall r : roi,
-  (2 * fst (roi_center r) <= 2 * rx r + rw r < 2 * fst (roi_center r) + 2)%Z /\
-  (2 * snd (roi_center r) <= 2 * ry r + rh r < 2 * snd (roi_center r) + 2)%Z.
-Proof. exact roi_center_floor. Qed.
-Print Assumptions C06_roi_center_is_floor_of_middle.
 
 (* ---------------------------------------------------------------------------------------- *)
 (* B. axis-aligned rectangles and all integer ROIs: unconditional                            *)
@@ -79,35 +70,22 @@ Proof.
 Qed.
 Print Assumptions C06_aa_intersection_exact.
 
-Theorem C06_iou_aa_unit_interval : forall a b : rect,
-  rect_pos a -> rect_pos b -> 0 <= iou_aa a b <= 1.
-Proof. exact iou_aa_bounds. Qed.
-Print Assumptions C06_iou_aa_unit_interval.
-
-Theorem C06_iou_aa_symmetric : forall a b : rect, iou_aa a b == iou_aa b a.
-Proof. exact iou_aa_sym. Qed.
-Print Assumptions C06_iou_aa_symmetric.
-
-Theorem C06_iou_aa_identical_one : forall a : rect, rect_pos a -> iou_aa a a == 1.
-Proof. exact iou_aa_identical. Qed.
-Print Assumptions C06_iou_aa_identical_one.
-
-(* disjoint or merely touching *)
-Theorem C06_iou_aa_disjoint_zero : forall a b : rect,
-  (x1 a <= x0 b \/ x1 b <= x0 a \/ y1 a <= y0 b \/ y1 b <= y0 a) -> iou_aa a b == 0.
-Proof. exact iou_aa_disjoint. Qed.
-Print Assumptions C06_iou_aa_disjoint_zero.
-
-Theorem C06_iou_aa_overlap_positive : forall a b : rect,
-  rect_pos a -> rect_pos b -> x0 a < x1 b -> x0 b < x1 a -> y0 a < y1 b -> y0 b < y1 a ->
-  0 < iou_aa a b.
-Proof. exact iou_aa_overlap_pos. Qed.
-Print Assumptions C06_iou_aa_overlap_positive.
-
-Theorem C06_iou_aa_translation_invariant : forall (tx ty : Q) (a b : rect),
-  iou_aa (shift_rect tx ty a) (shift_rect tx ty b) == iou_aa a b.
-Proof. exact iou_aa_shift. Qed.
-Print Assumptions C06_iou_aa_translation_invariant.
+(* IoU of two rectangles of positive size: in [0,1]; symmetric; 1 EXACTLY for identical ones;
+   0 EXACTLY for disjoint or merely touching ones; invariant under a common translation *)
+Theorem C06_iou_aa_laws : forall a b : rect,
+  rect_pos a -> rect_pos b ->
+  0 <= iou_aa a b <= 1 /\
+  iou_aa a b == iou_aa b a /\
+  iou_aa a a == 1 /\
+  (iou_aa a b == 1 <-> (x0 a == x0 b /\ y0 a == y0 b /\ x1 a == x1 b /\ y1 a == y1 b)) /\
+  (iou_aa a b == 0 <-> (x1 a <= x0 b \/ x1 b <= x0 a \/ y1 a <= y0 b \/ y1 b <= y0 a)) /\
+  (forall tx ty, iou_aa (shift_rect tx ty a) (shift_rect tx ty b) == iou_aa a b).
+Proof.
+  intros a b Pa Pb. split; [now apply iou_aa_bounds|]. split; [apply iou_aa_sym|].
+  split; [now apply iou_aa_identical|]. split; [now apply iou_aa_one_iff|].
+  split; [now apply iou_aa_zero_iff|]. intros. apply iou_aa_shift.
+Qed.
+Print Assumptions C06_iou_aa_laws.
 
 (* a yaw = 0 box has exactly the corners of its rectangle, and the same area *)
 Theorem C06_aa_box_is_rect : forall b : box,
@@ -219,7 +197,15 @@ Theorem C06_iou3_le_iou2_numbers : forall i h ae ag he hg : Q,
 Proof. exact iou3_le_iou2_num. Qed.
 Print Assumptions C06_iou3_le_iou2_numbers.
 
+(* the height intersection is the length of the set of common heights; bounds, symmetry,
+   invariance *)
 Theorem C06_height_intersection : forall e g : box,
+  (let lo := qmax (bz e - bh e / 2) (bz g - bh g / 2) in
+   let hi := qmin (bz e + bh e / 2) (bz g + bh g / 2) in
+   (forall z, (bz e - bh e / 2 <= z <= bz e + bh e / 2 /\ bz g - bh g / 2 <= z <= bz g + bh g / 2)
+              <-> lo <= z <= hi) /\
+   (lo <= hi -> height_intersection e g == hi - lo) /\
+   (hi < lo -> height_intersection e g == 0)) /\
   0 <= height_intersection e g /\
   (0 <= bh e -> height_intersection e g <= bh e) /\
   (0 <= bh g -> height_intersection e g <= bh g) /\
@@ -227,22 +213,12 @@ Theorem C06_height_intersection : forall e g : box,
   (0 <= bh e -> height_intersection e e == bh e) /\
   (forall m, height_intersection (move_box m e) (move_box m g) == height_intersection e g).
 Proof.
-  intros e g. split; [apply height_intersection_nonneg|]. split; [apply height_intersection_le_l|].
+  intros e g. split; [exact (height_intersection_spec e g)|].
+  split; [apply height_intersection_nonneg|]. split; [apply height_intersection_le_l|].
   split; [apply height_intersection_le_r|]. split; [apply height_intersection_sym|].
   split; [apply height_intersection_self|]. intros m. apply height_intersection_move.
 Qed.
 Print Assumptions C06_height_intersection.
-
-(* it is the length of the set of common heights *)
-Theorem C06_height_intersection_exact : forall e g : box,
-  let lo := qmax (bz e - bh e / 2) (bz g - bh g / 2) in
-  let hi := qmin (bz e + bh e / 2) (bz g + bh g / 2) in
-  (forall z, (bz e - bh e / 2 <= z <= bz e + bh e / 2 /\ bz g - bh g / 2 <= z <= bz g + bh g / 2)
-             <-> lo <= z <= hi) /\
-  (lo <= hi -> height_intersection e g == hi - lo) /\
-  (hi < lo -> height_intersection e g == 0).
-Proof. exact height_intersection_spec. Qed.
-Print Assumptions C06_height_intersection_exact.
 
 (* the footprint moves with the box (used by every invariance statement) *)
 Theorem C06_corners_covariant : forall (m : motion) (b : box),
@@ -278,11 +254,20 @@ Proof.
 Qed.
 Print Assumptions C06_plane_nonneg.
 
+(* 0 for identical footprints; and 0 ONLY IF the estimate's two selected corners coincide with
+   the ground truth's *)
 Theorem C06_plane_identical_zero : forall e g : box,
-  same_bev e g -> exists v, plane_sq_box e g = Some v /\ v == 0.
+  (same_bev e g -> exists v, plane_sq_box e g = Some v /\ v == 0) /\
+  ((exists v, plane_sq_box e g = Some v /\ v == 0) ->
+     exists i j gi gj ei ej, plane_sel (corners g) = Some (i, j) /\
+       nth_error (corners g) i = Some gi /\ nth_error (corners g) j = Some gj /\
+       nth_error (corners e) i = Some ei /\ nth_error (corners e) j = Some ej /\
+       pt_eq ei gi /\ pt_eq ej gj).
 Proof.
-  intros e g S. destruct (plane_sq_box_some e g) as [v Hv]. exists v. split; [exact Hv|].
-  now apply (plane_sq_box_identical_zero e g).
+  intros e g. split.
+  - intros S. destruct (plane_sq_box_some e g) as [v Hv]. exists v. split; [exact Hv|].
+    now apply (plane_sq_box_identical_zero e g).
+  - intros H. apply plane_sq_box_zero_inv. now right.
 Qed.
 Print Assumptions C06_plane_identical_zero.
 
@@ -300,22 +285,16 @@ Print Assumptions C06_plane_rotation_invariant.
 (* a box footprint is convex and counter-clockwise (precondition of Sutherland-Hodgman), its
    shoelace area is length * width, clipping it by itself returns it: the evaluator gives
    IoU = 1 (2D and 3D) for identical boxes of any yaw, position and size *)
-Theorem C06_clip_footprint_convex_ccw : forall b : box, box_valid b ->
-  forall ab, In ab (edges (corners b)) -> forall p, In p (corners b) -> 0 <= cross (fst ab) (snd ab) p.
-Proof.
-  intros b V ab Hab p Hp. apply Qleb_true. exact (corners_convex_ccw b V ab Hab p Hp).
-Qed.
-Print Assumptions C06_clip_footprint_convex_ccw.
-
-Theorem C06_clip_shoelace_area : forall b : box, box_unit b -> poly_area (corners b) == bl b * bw b.
-Proof. exact poly_area_corners. Qed.
-Print Assumptions C06_clip_shoelace_area.
-
 Theorem C06_clip_self : forall b : box, box_valid b ->
+  (forall ab, In ab (edges (corners b)) -> forall p, In p (corners b) -> 0 <= cross (fst ab) (snd ab) p) /\
+  poly_area (corners b) == bl b * bw b /\
   clip (rcorners b) (rcorners b) = rcorners b /\ inter_clip b b == area_rect b /\
   iou2_clip b b == 1 /\ iou3_clip b b == 1.
 Proof.
-  intros b V. split; [now apply clip_self|]. split; [now apply inter_clip_self|].
+  intros b V. split.
+  { intros ab Hab p Hp. apply Qleb_true. exact (corners_convex_ccw b V ab Hab p Hp). }
+  split; [apply poly_area_corners, V|].
+  split; [now apply clip_self|]. split; [now apply inter_clip_self|].
   split; [now apply iou2_clip_self|now apply iou3_clip_self].
 Qed.
 Print Assumptions C06_clip_self.
